@@ -128,6 +128,12 @@ def random_chunking(rng, stream, allow_empty=True):
     return res
 
 
+def coarse_chunking(rng, stream, maxcuts=12):
+    """A few cut positions (for long streams)."""
+    cuts = sorted({rng.randrange(len(stream) + 1) for _ in range(rng.randint(0, maxcuts))} | {0, len(stream)})
+    return [stream[a:b] for a, b in zip(cuts, cuts[1:])] or [stream]
+
+
 def biased_bytes(rng, p, n, exclude=None):
     """Bytes biased towards the two preamble bytes."""
     alpha = [p[0], p[1], p[0], p[1], 0, 8, 1, 0xFF] + [rng.randrange(256) for _ in range(4)]
